@@ -84,7 +84,12 @@ class C09Bounded(Bounded):
             for i, doc in enumerate(docs):
                 open(os.path.join(d, f"{i:02d}.yml"), "w").write(yaml.safe_dump(doc))
             return SigmaCollection.load_ruleset([d])
-        loaders = {"from_yaml": from_yaml, "from_dicts": from_dicts, "load_ruleset": load_ruleset, "merge": merge}
+        def load_ruleset_hook(docs):        # the same files with an on_load hook that hands every per-file collection back unchanged
+            d = tempfile.mkdtemp(dir=root)
+            for i, doc in enumerate(docs):
+                open(os.path.join(d, f"{i:02d}.yml"), "w").write(yaml.safe_dump(doc))
+            return SigmaCollection.load_ruleset([d], on_load=lambda path, col: col)
+        loaders = {"from_yaml": from_yaml, "from_dicts": from_dicts, "load_ruleset": load_ruleset, "merge": merge, "load_ruleset with an identity on_load hook": load_ruleset_hook}
         ev = nontriv = 0
         seen, fails, samples = {}, [], []
         try:
@@ -134,5 +139,5 @@ class C09Bounded(Bounded):
         finally:
             shutil.rmtree(root, ignore_errors=True)
         return {"evaluations": ev, "distinct_nontrivial": nontriv, "failures": fails, "failure_counts": seen,
-                "bound": f"{len(SETS)} rule sets (<= 5 documents, chains of depth <= 3, name and id references, anonymous correlation rules, unrelated rules) x all permutations ({'sampled 24' if tier == 'quick' else 'exhaustive'}) x 4 load paths (from_yaml, from_dicts, load_ruleset, merge of single-document collections)",
+                "bound": f"{len(SETS)} rule sets (<= 5 documents, chains of depth <= 3, name and id references, anonymous correlation rules, unrelated rules) x all permutations ({'sampled 24' if tier == 'quick' else 'exhaustive'}) x 5 load paths (from_yaml, from_dicts, load_ruleset without / with an identity on_load hook, merge of single-document collections)",
                 "rule": "distinct (set, permutation, load path)", "samples": samples, "exhaustive": tier != "quick"}
